@@ -386,6 +386,12 @@ func c07Follower(t *testing.T, s *sim.Scn, o *sim.Outcome) {
 		case "retrieve":
 			w.DA.SetCur(fw.maxDA)
 			f.Retrieve()
+		case "rfault":
+			// the next fetch of one of the coming DA heights fails (listing or a Get chunk; generic error, DA-side
+			// cancellation, wrapped deadline, DA deadline error, timed out)
+			h := f.M.VerifDAHeight() + uint64(op.A%4)
+			w.DA.ReadScript[h] = append(w.DA.ReadScript[h], sim.ReadOutcome{Kind: []sim.ReadKind{sim.ReadListErr, sim.ReadChunkErr}[op.B%2], Chunk: 0, Flavor: []int{0, 1, 2, 3, 5}[op.C%5]})
+			o.Count("scripted-da-read-faults", 1)
 		case "p2p":
 			fw.hP2P = min64u(top, fw.hP2P+uint64(op.A%4))
 			fw.dP2P = min64u(top, fw.dP2P+uint64(op.B%4))
@@ -445,6 +451,7 @@ func c07Follower(t *testing.T, s *sim.Scn, o *sim.Outcome) {
 		o.Logf("%d %s %s", i, op, f.AbstractState())
 	}
 	f.Exec.FinalScript = nil
+	w.DA.ReadScript = map[uint64][]sim.ReadOutcome{}
 	// final: all blobs on DA, scanned, everything delivered and applied; then a small inclusion budget
 	for bi, b := range blocks {
 		if !fw.planted[fmt.Sprintf("%d/0", bi)] {
@@ -566,6 +573,9 @@ func c07Gen(r *rand.Rand, tier string) *sim.Scn {
 		case x < 25:
 			s.Ops = append(s.Ops, sim.Op{K: "plant", A: r.Int64N(int64(n + 1)), B: r.Int64N(2), C: r.Int64N(4)})
 		case x < 40:
+			if r.IntN(4) == 0 {
+				s.Ops = append(s.Ops, sim.Op{K: "rfault", A: r.Int64N(4), B: r.Int64N(2), C: r.Int64N(5)})
+			}
 			s.Ops = append(s.Ops, sim.Op{K: "retrieve"})
 		case x < 48:
 			s.Ops = append(s.Ops, sim.Op{K: "p2p", A: r.Int64N(4), B: r.Int64N(4)})
@@ -594,7 +604,7 @@ func TestC07(t *testing.T) {
 	sim.Main(t, &sim.Check{
 		ID:    "C07",
 		Level: "exploration",
-		Rule: "two roles, drawn per scenario. aggregator: seeded production (empty/non-empty), scripted DA outcomes, runs of the real submission loops, runs of the real DA-includer loop, clean restarts, kills, crashes cutting a durable write inside an inclusion run. follower: seeded chain, DA placements, scans, P2P polls, arbitrary-order deliveries, inclusion runs (optionally cut by a crash), clean restarts, kills. " +
+		Rule: "two roles, drawn per scenario. aggregator: seeded production (empty/non-empty), scripted DA outcomes, runs of the real submission loops, runs of the real DA-includer loop, clean restarts, kills, crashes cutting a durable write inside an inclusion run. follower: seeded chain, DA placements, scans (with scripted read faults: listing/chunk errors that are generic, DA-side cancellations, deadline errors or timeouts), P2P polls, arbitrary-order deliveries, inclusion runs (optionally cut by a crash), clean restarts, kills. " +
 			"after every operation: reported/persisted height monotone (also across restarts), <= chain height, finalize log 1,2,3,... before report, parts on DA before inclusion, recorded DA heights name heights where the blobs are; finally bounded liveness. distinct = distinct scenario hash; non-trivial = chain of >= 3 blocks and (aggregator) a crash or DA fault executed",
 		Assumptions: []string{"initial height held at 1 (not in this property's quantifier)", "liveness budget: 3 inclusion runs interleaved with ticks after everything is on DA (and, for the follower, scanned and applied)"},
 		Components:  map[string]string{"block.DAIncluderLoop / IsDAIncluded / SetRollkitHeightToDAHeight / incrementDAIncludedHeight": "real", "submission loops, RetrieveLoop, SyncLoop": "real", "pkg/cache (DA-included marks, cache files on clean stop)": "real", "DA": "stub (SimDA)", "executor (finalize log)": "stub (SimExec)"},
